@@ -8,6 +8,7 @@
 #include <errno.h>
 #include <fcntl.h>
 #include <stdint.h>
+#include <sys/ioctl.h>
 #include <sys/socket.h>
 #include <unistd.h>
 #include <map>
@@ -27,7 +28,11 @@
 #include "common/protocol/OlaService.pb.h"
 #include "common/rpc/Rpc.pb.h"
 #include "common/rpc/RpcController.h"
+#include "common/rpc/RpcServer.h"
 #include "common/rpc/RpcSession.h"
+#include "ola/Clock.h"
+#include "ola/io/SelectServer.h"
+#include "ola/rpc/RpcSessionHandler.h"
 #include "common/rpc/TestService.pb.h"
 #include "common/rpc/TestServiceService.pb.h"
 #include "ola/Callback.h"
@@ -66,8 +71,17 @@ class Service : public ola::rpc::TestService {
   bool async;
   unsigned nreq;
   std::map<unsigned, Pending> pending;
+  // server mode: one service behind many channels; requests are numbered per client
+  bool per_client;
+  std::map<unsigned, unsigned> nreq_of;
+  unsigned Number(RpcController *controller) {
+    if (!per_client) return nreq++;
+    unsigned client = static_cast<unsigned>(reinterpret_cast<uintptr_t>(controller->Session()->GetData())) - 1;
+    g_ctx->svc << "@" << client;
+    return (client << 16) | nreq_of[client]++;
+  }
 
-  Service() : async(false), nreq(0) {}
+  Service() : async(false), nreq(0), per_client(false) {}
 
   void Note(const char *name, const EchoRequest *request) {
     g_ctx->svc << "|V" << vh::hex(string(name)) << ":" << vh::hex(request->SerializePartialAsString());
@@ -75,7 +89,7 @@ class Service : public ola::rpc::TestService {
   void Echo(RpcController *controller, const EchoRequest *request, EchoReply *response,
             CompletionCallback *done) {
     Note("Echo", request);
-    unsigned q = nreq++;
+    unsigned q = Number(controller);
     if (async) {
       Pending p = {controller, response, done};
       pending[q] = p;
@@ -87,7 +101,7 @@ class Service : public ola::rpc::TestService {
   void FailedEcho(RpcController *controller, const EchoRequest *request, EchoReply *response,
                   CompletionCallback *done) {
     Note("FailedEcho", request);
-    unsigned q = nreq++;
+    unsigned q = Number(controller);
     if (async) {
       Pending p = {controller, response, done};
       pending[q] = p;
@@ -96,12 +110,14 @@ class Service : public ola::rpc::TestService {
     controller->SetFailed("Error");
     done->Run();
   }
-  void Stream(RpcController*, const EchoRequest *request, ola::rpc::STREAMING_NO_RESPONSE*,
+  void Stream(RpcController *controller, const EchoRequest *request, ola::rpc::STREAMING_NO_RESPONSE*,
               CompletionCallback *done) {
     Note("Stream", request);
     if (done) {   // called through a plain REQUEST: reply with the empty message
-      nreq++;
+      Number(controller);
       done->Run();
+    } else if (per_client) {
+      g_ctx->svc << "@" << (static_cast<unsigned>(reinterpret_cast<uintptr_t>(controller->Session()->GetData())) - 1);
     }
   }
   // the script completes request q
@@ -320,14 +336,15 @@ struct Endpoint {
 
   static void OnClose(Endpoint *self, ola::rpc::RpcSession*) { self->handler_runs++; }
 
-  Endpoint(bool no_service, bool async)
-      : peer(NULL), pfd(-1), cfd(-1), jam(false), handler_runs(0), channel(NULL) {
+  bool no_export;
+  Endpoint(bool no_service, bool async, bool no_export_map)
+      : peer(NULL), pfd(-1), cfd(-1), jam(false), handler_runs(0), channel(NULL), no_export(no_export_map) {
     service.async = async;
     if (!sock.Init()) return;
     peer = sock.OppositeEnd();
     pfd = peer->ReadDescriptor();
     cfd = sock.ReadDescriptor();
-    channel = new RpcChannel(no_service ? NULL : &service, &sock, &export_map);
+    channel = new RpcChannel(no_service ? NULL : &service, &sock, no_export ? NULL : &export_map);
     channel->SetChannelCloseHandler(ola::NewSingleCallback(&Endpoint::OnClose, this));
   }
   ~Endpoint() {
@@ -409,7 +426,7 @@ struct Endpoint {
       }
     }
     *out << "x" << (sock.ValidReadDescriptor() ? 0 : 1) << (channel->m_descriptor ? 0 : 1)
-         << Counters(&export_map) << g_ctx->done.str() << sent.str() << g_ctx->svc.str() << "|H"
+         << (no_export ? string("|rx-") : Counters(&export_map)) << g_ctx->done.str() << sent.str() << g_ctx->svc.str() << "|H"
          << handler_runs;
     g_ctx->done.str("");
     g_ctx->svc.str("");
@@ -424,18 +441,139 @@ struct Endpoint {
   }
 };
 
+// server mode (token "S<n>"): a real RpcServer with n clients on injected socketpairs, one service and one
+// ExportMap behind all of them, a real SelectServer running the event loop.  Clients come and go
+// (p = the client hangs up) while requests of theirs may still be with the asynchronous service.
+class SessionCounter : public ola::rpc::RpcSessionHandlerInterface {
+ public:
+  unsigned added, removed;
+  SessionCounter() : added(0), removed(0) {}
+  void NewClient(ola::rpc::RpcSession *session) {
+    session->SetData(reinterpret_cast<void*>(static_cast<uintptr_t>(++added)));
+  }
+  void ClientRemoved(ola::rpc::RpcSession *session) {
+    removed++;
+    g_ctx->done << "|R" << (reinterpret_cast<uintptr_t>(session->GetData()) - 1);
+  }
+};
+
+string HandleServer(const vector<string> &toks, unsigned nclients, bool async) {
+  Ctx ctx;
+  g_ctx = &ctx;
+  std::ostringstream out;
+  {
+    ola::ExportMap export_map;
+    Service service;
+    service.async = async;
+    service.per_client = true;
+    SessionCounter sessions;
+    ola::io::SelectServer ss;
+    ola::rpc::RpcServer::Options options;
+    options.export_map = &export_map;
+    std::vector<ola::io::UnixSocket*> peers;
+    std::vector<string> pending_out(nclients);
+    std::vector<bool> gone(nclients, false);
+    {
+      ola::rpc::RpcServer server(&ss, &service, &sessions, options);
+      for (unsigned i = 0; i < nclients; i++) {
+        ola::io::UnixSocket *sock = new ola::io::UnixSocket();
+        if (!sock->Init()) return "harness-error=socketpair";
+        peers.push_back(sock->OppositeEnd());
+        server.AddClient(sock);   // the server owns the descriptor from here
+      }
+      unsigned cur = 0, idx = 0;
+      for (size_t t = 0; t < toks.size(); t++) {
+        const string &tok = toks[t];
+        if (tok.empty()) continue;
+        char c = tok[0];
+        string rest = tok.substr(1);
+        if (c == '@' || c == 'T' || c == 'Q' || c == 'A' || c == 'S') continue;
+        if (c == 'i') {
+          cur = vh::num(rest);
+          if (cur >= nclients) return "harness-error=client-index";
+          continue;
+        }
+        if (c == 'c') {
+          vector<uint8_t> bytes = vh::unhex(rest);
+          // writing fails once the server side has closed this connection
+          if (!gone[cur] && !bytes.empty() &&
+              write(peers[cur]->WriteDescriptor(), bytes.data(), bytes.size()) != static_cast<ssize_t>(bytes.size()))
+            ctx.done << "|!";
+        } else if (c == 'p') {
+          if (!gone[cur]) peers[cur]->Close();
+          gone[cur] = true;
+        } else if (c == 'k') {
+          service.Complete((cur << 16) | vh::num(rest.substr(0, rest.size() - 1)), rest[rest.size() - 1] == 'F');
+        } else {
+          return "harness-error=token";
+        }
+        // run the event loop until it has nothing more to do: every byte the clients wrote has been
+        // consumed (or dropped by a close), plus a few rounds for close handlers and deferred clean-up
+        for (int round = 0, quiet = 0; round < 100000 && quiet < 4; round++) {
+          ss.RunOnce(ola::TimeInterval(0, 200));
+          bool unread = false;
+          for (unsigned i = 0; i < nclients; i++) {
+            int queued = 0;
+            if (!gone[i] && ioctl(peers[i]->WriteDescriptor(), TIOCOUTQ, &queued) == 0 && queued > 0) unread = true;
+          }
+          quiet = unread ? 0 : quiet + 1;
+        }
+        std::ostringstream sent;
+        if (!gone[cur]) {
+          char buf[65536];
+          ssize_t n;
+          while ((n = read(peers[cur]->ReadDescriptor(), buf, sizeof(buf))) > 0) pending_out[cur].append(buf, n);
+          string &po = pending_out[cur];
+          while (po.size() >= 4) {
+            uint32_t header;
+            memcpy(&header, po.data(), 4);
+            unsigned size = header & 0x0fffffff;
+            if (po.size() < 4 + size) break;
+            RpcMessage m;
+            if (!m.ParseFromArray(po.data() + 4, size)) sent << "|Sunparsable";
+            else sent << "|S" << m.type() << ":" << m.id() << ":" << vh::hex(m.name()) << ":" << vh::hex(m.buffer());
+            po.erase(0, 4 + size);
+          }
+        }
+        out << "o" << idx << "=#" << cur << "#n" << export_map.GetIntegerVar("clients-connected")->Get()
+            << "+" << sessions.added << "-" << sessions.removed
+            << Counters(&export_map) << ctx.done.str() << sent.str() << ctx.svc.str() << ";";
+        ctx.done.str("");
+        ctx.svc.str("");
+        idx++;
+      }
+      // the server goes away with clients still connected: it closes them all
+    }
+    out << "end=+" << sessions.added << "-" << sessions.removed << ";";
+    for (size_t i = 0; i < peers.size(); i++) delete peers[i];
+    // requests the service still holds belong to channels that no longer exist: completing them now
+    // must not touch anything freed
+    std::vector<unsigned> left;
+    for (std::map<unsigned, Service::Pending>::iterator it = service.pending.begin(); it != service.pending.end(); ++it)
+      left.push_back(it->first);
+    for (size_t i = 0; i < left.size(); i++) service.Complete(left[i], false);
+    (void) left.size();
+  }
+  out << "oversize_accepted=0;hazard=none";
+  g_ctx = NULL;
+  return out.str();
+}
+
 string Handle(const string &payload) {
   vector<string> toks = vh::split(payload);
   if (!toks.empty() && toks[0] == "P") return HandleParse(toks);
-  bool no_service = false, async = false, oversize_script = false;
+  bool no_service = false, async = false, oversize_script = false, no_export = false;
   unsigned nchan = 1;
   for (size_t t = 0; t < toks.size(); t++) {
     if (toks[t] == "2") return HandleTwo(toks);
     if (toks[t] == "N") no_service = true;
+    if (toks[t] == "E") no_export = true;   // the channel gets no ExportMap
     if (toks[t] == "A") async = true;
     if (toks[t] == "X") oversize_script = true;
     if (toks[t].size() > 1 && toks[t][0] == 'M') nchan = vh::num(toks[t].substr(1));   // multi-channel mode
   }
+  for (size_t t = 0; t < toks.size(); t++)
+    if (toks[t].size() > 1 && toks[t][0] == 'S') return HandleServer(toks, vh::num(toks[t].substr(1)), async);
   if (nchan < 1 || nchan > 16) return "harness-error=channels";
   Ctx ctx;
   g_ctx = &ctx;
@@ -445,7 +583,7 @@ string Handle(const string &payload) {
     // all channels live side by side for the whole script
     std::vector<Endpoint*> eps;
     for (unsigned i = 0; i < nchan; i++) {
-      eps.push_back(new Endpoint(no_service, async));
+      eps.push_back(new Endpoint(no_service, async, no_export));
       if (!eps.back()->channel) return "harness-error=socketpair";
     }
     unsigned cur = 0, idx = 0;
@@ -453,7 +591,7 @@ string Handle(const string &payload) {
       const string &tok = toks[t];
       if (tok.empty()) continue;
       char c = tok[0];
-      if (c == '@' || c == 'T' || c == 'Q' || c == 'X' || c == 'N' || c == 'A' || c == 'M') continue;
+      if (c == '@' || c == 'T' || c == 'Q' || c == 'X' || c == 'N' || c == 'A' || c == 'M' || c == 'E') continue;
       if (c == 'i') {   // the following ops belong to channel <k>
         cur = vh::num(tok.substr(1));
         if (cur >= nchan) return "harness-error=channel-index";
